@@ -240,6 +240,85 @@ noncomputable def rename (norm : Nat → Nat) (hidden : Nat → Bool) (f : FS) (
                       tombstone).modDir dNew (fun x => x.put (norm newName) newName cs)), .ok, none)
                 else (f3, .notempty, none)
 
+/-! ### bulk calls of `PrepopulatedDirectory` -/
+
+/-- `b` is a sub-directory of `a`. -/
+def edge (f : FS) (a b : Nat) : Prop := ∃ n name, (f.dir a).entries n = some (name, Child.dir b)
+
+/-- `c` is `a` or lies below it. -/
+inductive Reach (f : FS) : Nat → Nat → Prop
+  | refl (a : Nat) : Reach f a a
+  | step {a b c : Nat} : edge f a b → Reach f b c → Reach f a c
+
+open Classical in
+/-- Recursive removal: every directory that is one of `roots` or lies below one
+becomes a tombstone (its leaves lose the names they had there). -/
+noncomputable def destroy (f : FS) (roots : Nat → Prop) : FS :=
+  { f with dirs := f.dirs.mapIdx (fun i x => if ∃ r, roots r ∧ Reach f r i then tombstone x else x) }
+
+/-- `CreateAndEnterPrepopulatedDirectory`: enter the directory of that name, creating
+it if needed; a leaf of that name is replaced (D7). -/
+def createAndEnter (norm : Nat → Nat) (f : FS) (d name : Nat) : Res :=
+  match expand norm f d with
+  | .error e => (f, e, none)
+  | .ok f1 =>
+    match (f1.dir d).entries (norm name) with
+    | some (_, .dir c) => (f1, .ok, some (Child.dir c))
+    | some (_, .leaf _) =>
+      (((f1.modDir d (fun x => x.del (norm name))).pushDir (fresh (some 0) (f1.dir d).fs)).modDir d
+          (fun x => x.put (norm name) name (Child.dir f1.dirs.length)), .ok, some (Child.dir f1.dirs.length))
+    | none =>
+      if (f1.dir d).removed then (f1, .noent, none)
+      else
+        ((f1.pushDir (fresh (some 0) (f1.dir d).fs)).modDir d (fun x => x.put (norm name) name (Child.dir f1.dirs.length)),
+          .ok, some (Child.dir f1.dirs.length))
+
+/-- `RemoveAll(name)`: the entry goes away; a directory goes away with everything below it. -/
+noncomputable def removeAll (norm : Nat → Nat) (f : FS) (d name : Nat) : Res :=
+  match expand norm f d with
+  | .error e => (f, e, none)
+  | .ok f1 =>
+    match (f1.dir d).entries (norm name) with
+    | none => (f1, .noent, none)
+    | some (_, .leaf _) => (f1.modDir d (fun x => x.del (norm name)), .ok, none)
+    | some (_, .dir c) => (destroy (f1.modDir d (fun x => x.del (norm name))) (fun r => r = c), .ok, none)
+
+/-- What is left of a directory whose children were all removed. -/
+def emptied (b : Bool) (x : SDir) : SDir :=
+  { pending := none, entries := fun _ => none, removed := x.removed || b, fs := x.fs }
+
+/-- `RemoveAllChildren(deleteSelf)`: never fails, does not even look at a pending fetcher. -/
+noncomputable def removeAllChildren (f : FS) (d : Nat) (deleteSelf : Bool) : Res :=
+  (destroy (f.modDir d (emptied deleteSelf)) (fun c => edge f d c), .ok, none)
+
+open Classical in
+/-- `CreateChildren(children, overwrite)`. -/
+noncomputable def createChildren (norm : Nat → Nat) (f : FS) (d : Nat) (overwrite : Bool) (cs : List (Nat × TChild)) : Res :=
+  match expand norm f d with
+  | .error e => (f, e, none)
+  | .ok f1 =>
+    if (f1.dir d).removed then (f1, .noent, none)
+    else
+      let norms := cs.map (fun c => norm c.1)
+      if overwrite then
+        match populate norm d (sortChildren cs)
+            (f1.modDir d (fun x => { x with entries := fun n => if norms.contains n then none else x.entries n })) with
+        | none => (f, .panic, none)
+        | some f3 =>
+          (destroy f3 (fun c => ∃ n name, norms.contains n = true ∧ (f1.dir d).entries n = some (name, Child.dir c)), .ok, none)
+      else if ∃ n, norms.contains n = true ∧ ((f1.dir d).entries n).isSome = true then (f1, .exist, none)
+      else
+        match populate norm d (sortChildren cs) f1 with
+        | none => (f, .panic, none)
+        | some f3 => (f3, .ok, none)
+
+/-- What `FilterChildren` may hand to its callback: a leaf entry `(owner, name, leaf)` of a
+directory at or below `d`, or a directory at or below `d` whose contents are still pending. -/
+def filterItem (f : FS) (d : Nat) (owner name : Nat) (c : Child) : Prop :=
+  Reach f d owner ∧
+    ((∃ n l, c = Child.leaf l ∧ (f.dir owner).entries n = some (name, Child.leaf l)) ∨
+     (c = Child.dir owner ∧ (f.dir owner).pending ≠ none))
+
 /-- Operations of the reference hierarchy. -/
 inductive Op
   | mkdir (d name : Nat)
@@ -249,6 +328,23 @@ inductive Op
   | lookup (d name : Nat)
   | remove (d name : Nat) (rmDir rmLeaf : Bool)
   | rename (dOld oldName dNew newName : Nat)
+  | createAndEnter (d name : Nat)
+  | removeAll (d name : Nat)
+  | removeAllChildren (d : Nat) (deleteSelf : Bool)
+  | createChildren (d : Nat) (overwrite : Bool) (children : List (Nat × TChild))
+  | access (d : Nat)           -- any call that only looks into the directory (listings)
+  | nop                        -- attributes, FilterChildren's traversal, InstallHooks
+  | newRoot (fs : Nat)
+  | newLeaf (kind : Nat)
+  | defTmpl (children : List (Nat × TChild))
+  | setFetchFail (b : Bool)
+  | setAllocFail (b : Bool)
+
+/-- Looking into a directory expands it (D4) and changes nothing else. -/
+def access (norm : Nat → Nat) (f : FS) (d : Nat) : Res :=
+  match expand norm f d with
+  | .error e => (f, e, none)
+  | .ok f1 => (f1, .ok, none)
 
 noncomputable def step (norm : Nat → Nat) (hidden : Nat → Bool) (f : FS) : Op → Res
   | .mkdir d n => mkdir norm f d n
@@ -258,5 +354,16 @@ noncomputable def step (norm : Nat → Nat) (hidden : Nat → Bool) (f : FS) : O
   | .lookup d n => lookup norm f d n
   | .remove d n a b => remove norm hidden f d n a b
   | .rename d1 n1 d2 n2 => rename norm hidden f d1 n1 d2 n2
+  | .createAndEnter d n => createAndEnter norm f d n
+  | .removeAll d n => removeAll norm f d n
+  | .removeAllChildren d b => removeAllChildren f d b
+  | .createChildren d ow cs => createChildren norm f d ow cs
+  | .access d => access norm f d
+  | .nop => (f, .ok, none)
+  | .newRoot fs => (f.pushDir (fresh (some 0) fs), .ok, some (Child.dir f.dirs.length))
+  | .newLeaf k => (f.pushLeaf k, .ok, some (Child.leaf f.kinds.length))
+  | .defTmpl cs => ({ f with tmpls := f.tmpls ++ [cs] }, .ok, none)
+  | .setFetchFail b => ({ f with fetchFail := b }, .ok, none)
+  | .setAllocFail b => ({ f with allocFail := b }, .ok, none)
 
 end BbRe.Spec.Posix
